@@ -7,7 +7,8 @@ OCAML = ["composite"]
 GO = ["composite"]
 PROP = "props/C10.v"
 PROOFS = ["proofs/CompositeC10b.v", "proofs/CompositeC10c.v", "proofs/CompositeMonLink.v", "proofs/CompositeProto.v", "proofs/CompositeProgress.v",
-          "proofs/CompositeC09.v", "proofs/CompositeMeasure.v", "proofs/CompositeTrace.v", "proofs/CompositeLink2.v"] + L.PROOFS_COMMON
+          "proofs/CompositeC09.v", "proofs/CompositeMeasure.v", "proofs/CompositeTrace.v", "proofs/CompositeLink2.v",
+          "proofs/CompositeC10d.v"] + L.PROOFS_COMMON
 
 
 def run(run):
@@ -15,8 +16,12 @@ def run(run):
     if not L.build(run):
         return
     quick = run.tier == "quick"
-    fams = [("corpus:corpus/C10/growth-reload-failure.jsonl", 0, 0), ("corpus:corpus/C10/multi-failure-after-growth.jsonl", 0, 0), ("c10", 1500 if quick else 20000, run.seed), ("multifail", 40 if quick else 400, run.seed + 5), ("boot", 200 if quick else 2000, run.seed + 1),
-            ("c11", 300 if quick else 3000, run.seed + 2)]
+    fams = [("corpus:corpus/C10/growth-reload-failure.jsonl", 0, 0), ("corpus:corpus/C10/multi-failure-after-growth.jsonl", 0, 0),
+            ("corpus:corpus/C10/failure-during-reload.jsonl", 0, 0), ("corpus:corpus/C10/error-on-stop.jsonl", 0, 0),
+            ("failreload", 160 if quick else 4000, run.seed + 7), ("stoperr", 120 if quick else 3000, run.seed + 8),
+            ("errwin", 15 if quick else 150, run.seed + 9),
+            ("c10", 1300 if quick else 20000, run.seed), ("multifail", 40 if quick else 400, run.seed + 5), ("boot", 150 if quick else 2000, run.seed + 1),
+            ("c11", 250 if quick else 3000, run.seed + 2)]
     results, cover, summary, scripts, traces = L.run_families(run, fams)
     cnt = L.classify(run, "C10", results, scripts, traces)
     nerr = 8000 if quick else 200000
@@ -35,8 +40,14 @@ def run(run):
     L.fill_coverage(run, results, cover, summary, scripts, cnt, extra_eval=sa.get("errs", 0),
                     rule="distinct = distinct (pool, initial config, director script) among accepted traces; families: "
                          "c10 (failure of every child index after 0..3 growth reloads, simultaneous failures, 11 failing and 11 benign "
-                         "error shapes incl. %w chains, errors.Join, custom Unwrap, wrapped context errors), boot (Reload/Stop/cancel while "
-                         "booting), c11 (reload histories); check A: generated error trees depth<=6 classified by errors.Is and, for every "
+                         "error shapes incl. %w chains, errors.Join, custom Unwrap, wrapped context errors), failreload (a child fails while a "
+                         "Reload() is in progress: in-place reload blocked inside a sibling's ReloadWithConfig/Reload or parked on a log record, "
+                         "membership-changing reload parked before/inside its stopAllRunnables, after its boot, or blocked in its drain behind the "
+                         "failing child's goroutine parked before its report, a second Reload() waiting for reloadMu, Run()'s failure teardown parked "
+                         "while a Reload() waits, an old child failing when the reload stops it; the state is observed while the reload is still "
+                         "held and after everything settled), stoperr (1-3 children that return a real error from Run() in reaction to Stop() or "
+                         "cancel, alone and racing Stop()/cancel/Reload(), Run() parked right after its select chose Stop()), errwin, boot "
+                         "(Reload/Stop/cancel while booting), c11 (reload histories); check A: generated error trees depth<=6 classified by errors.Is and, for every "
                          "8th, through Run()'s result",
                     extra={"error_trees_checked": sa.get("errs", 0), "error_trees_cancel": sa.get("errs_cancel", 0),
                            "error_trees_observed_through_run": sa.get("errs_observed", 0), "check_a_mismatches": len(mism)})
